@@ -1,10 +1,134 @@
-(* C11 - DNS auto-negotiation only settles on parameters that work. Proofs: Nego/Nego_proofs.v.
-   Modelled: the fragment-size search (Nego/FragSize.v) as a function of an arbitrary probe oracle, and the upstream codec ladder
-   (Nego/Ladder.v) over the family of name policies. The rest of the handshake is exercised through the real code (props/c11.py). *)
-From Coq Require Import List NArith ZArith Bool.
+(* C11 - DNS auto-negotiation only settles on parameters that work.  Proofs: Nego/Nego_proofs.v, Nego/Handshake_proofs.v.
+
+   Models: Nego/Handshake.v - the whole client-side negotiation (ClientDnsConnection.Handshake and every stage it calls) against the
+   server's message handler (Srv/Server.v) over a DNS path: letter case and 8-bit policy on query names, the record types answered,
+   an answer size limit enforced by dropping or by cutting trailing answer records.  Every probe goes through the request, name,
+   wrap and response models of C09/C10.  Nego/FragSize.v and Nego/Ladder.v are the fragment-size search and the upstream ladder on
+   their own.  `dom` is the tunnel domain of the harness; every statement below is over EVERY path of the family (every limit). *)
+From Coq Require Import String List NArith ZArith Bool.
 From SA Require Import Base.Tok Gen.Alphabets Gen.Nego Codec.Codec Nego.FragSize Nego.Ladder Nego.Nego_proofs.
+From SA Require Gen.Handshake Gen.Commands Wire.Requests.
+From SA.Wrap Require Import Wrap Responses.
+From SA.Nego Require Import Handshake Handshake_proofs.
 Import ListNotations.
 Open Scope N_scope.
+
+(* ---------------------------------------------------------------------------------------------------------------- *)
+(* the handshake as a whole *)
+
+(* (1) It ends: the fuel is never exhausted, and it costs at most 141 exchanges (24 for the record type, 73 up to the fragment-size
+   search, 39 for the search, 5 for the switch). *)
+Theorem c11_handshake_terminates : forall dm p, handshake hs_fuel dm p <> HsOutOfFuel.
+Proof. exact handshake_terminates. Qed.
+
+Theorem c11_handshake_bounded : forall p,
+  match handshake hs_fuel dom p with HsOk ps => (hp_exchanges ps <= 141)%nat | HsFail _ n => (n <= 141)%nat | HsOutOfFuel => False end.
+Proof. exact handshake_bounded. Qed.
+
+(* (2) Otherwise it reports failure: there is no third outcome; no answered record type, no record type whose probe passes, or a
+   version exchange that fails on all its tries, are failures of the named stage. *)
+Theorem c11_success_or_reported_failure : forall p,
+  (exists ps, handshake hs_fuel dom p = HsOk ps) \/ (exists s n, handshake hs_fuel dom p = HsFail s n).
+Proof. exact handshake_outcomes. Qed.
+
+Theorem c11_no_type_answered_fails : forall p, (forall q, answers p q = false) -> exists n, handshake hs_fuel dom p = HsFail StQueryType n.
+Proof. exact no_type_fails. Qed.
+
+Theorem c11_no_probe_passes_fails : forall p, (forall q, type_probe_ok p dom q = false) -> exists n, handshake hs_fuel dom p = HsFail StQueryType n.
+Proof. exact no_probe_fails. Qed.
+
+Theorem c11_version_failure_fails : forall p qt st n, detect p dom = (Some qt, st, n) ->
+  fst (fst (exec p (version_loop (p_case p) (p_bits p) dom qt (tries Gen.Handshake.version_tries) st O))) = None ->
+  exists n', handshake hs_fuel dom p = HsFail StVersion n'.
+Proof. exact version_fails. Qed.
+
+(* (3) The settled record type is answered by the path, its probe (the check pattern through a record of that type) passed, and it
+   is the first type of the priority list whose probe passes on this path.  Without a size limit a probe passes exactly for an
+   answered type other than A and AAAA (whose answers to the probe cannot be packed: C10's finding), so the first such type wins. *)
+Theorem c11_settled_type_answered : forall p ps, handshake hs_fuel dom p = HsOk ps ->
+  answers p (hp_qt ps) = true /\ find (type_probe_ok p dom) priority = Some (hp_qt ps) /\
+  exists before_it after_it, priority = before_it ++ hp_qt ps :: after_it /\
+    type_probe_ok p dom (hp_qt ps) = true /\ forallb (fun q => negb (type_probe_ok p dom q)) before_it = true.
+Proof. exact settled_type. Qed.
+
+Theorem c11_unlimited_probe : forall cp bp ts trunc qt,
+  type_probe_ok {| p_case := cp; p_bits := bp; p_types := ts; p_limit := 0; p_trunc := trunc |} dom qt =
+  existsb (rtype_eqb qt) ts && match qt with RA | RAAAA => false | _ => true end.
+Proof. exact unlimited_probe. Qed.
+
+(* (4) The path leaves alone the whole alphabet of the settled upstream codec and the characters a query name holds besides the
+   payload; the settled downstream codec passed the check-pattern round trip through the settled record type on this path, and is
+   one of the combinations C10 proves to carry. *)
+Theorem c11_settled_up_survives : forall p ps, handshake hs_fuel dom p = HsOk ps ->
+  survives (p_case p) (p_bits p) (alphabet (hp_up ps)) = true /\ survives (p_case p) (p_bits p) name_chars = true /\
+  Requests.selectable_up (hp_up ps) = true.
+Proof. exact settled_up. Qed.
+
+Theorem c11_settled_down_survives : forall p ps, handshake hs_fuel dom p = HsOk ps ->
+  down_check_ok p dom (hp_qt ps) (hp_down ps) = true /\ carries (hp_qt ps) (hp_down ps) = true.
+Proof. exact settled_down. Qed.
+
+(* (5) Client and server agree: when the fragment-size search starts the server holds for this session the codecs and the lazy
+   mode the client settled on. *)
+Theorem c11_settled_agreed : forall p ps, handshake hs_fuel dom p = HsOk ps ->
+  view_ok (hp_pre ps) = true /\ hp_up ps = pr_up (hp_pre ps) /\ hp_down ps = pr_down (hp_pre ps) /\ hp_lazy ps = pr_lazy (hp_pre ps).
+Proof. exact settled_agreed. Qed.
+
+(* (6) Fragment sizes: the probe with two octets more than the settled downstream size passed on this path (never less than the
+   first proposal, 768: a path that cannot carry that fails the handshake); the client's downstream size is that size or 0 (the
+   switch was not acknowledged); the upstream size is getUpstreamMtu for the settled codec.  A probe that passed came back with all
+   its octets; on a path that drops what is too large the whole packed answer was within the limit. *)
+Theorem c11_settled_fragment : forall p ps, handshake hs_fuel dom p = HsOk ps ->
+  frag_oracle p dom (hp_qt ps) (hp_pre ps) (hp_probed ps + 2) = POk /\ 768 <= hp_probed ps + 2 /\
+  (hp_down_frag ps = hp_probed ps \/ hp_down_frag ps = 0) /\
+  hp_up_frag ps = Requests.upstream_mtu dom (hp_up ps).
+Proof. exact settled_fragment. Qed.
+
+Theorem c11_settled_fragment_delivered : forall p ps, handshake hs_fuel dom p = HsOk ps ->
+  exists w w', frag_answer (p_case p) (p_bits p) (hp_qt ps) (hp_pre ps) (hp_probed ps + 2) = Some w /\
+    deliver (p_trunc p) (p_limit p) w = Some w' /\
+    frag_accept (hp_probed ps + 2)
+      (client_decode dom (pr_down (hp_pre ps)) (Requests.RFragSize (pr_uid (hp_pre ps)) (hp_probed ps + 2)) w') = POk.
+Proof. exact settled_fragment_delivered. Qed.
+
+Theorem c11_settled_fragment_within_limit : forall p ps, handshake hs_fuel dom p = HsOk ps -> p_trunc p = false ->
+  exists w, frag_answer (p_case p) (p_bits p) (hp_qt ps) (hp_pre ps) (hp_probed ps + 2) = Some w /\ fits_path p w = true.
+Proof. exact settled_fragment_fits. Qed.
+
+(* (7) The point of the property.  Upstream: every data packet of at most the settled upstream fragment size, sent as a packet
+   request through the path, is decoded by the server's serializer to the same packet (user id mod 1296).  Downstream: every
+   packet response (every response, in fact) whose records the order tags can count and whose packed answer the path lets
+   through (down_side) is decoded by the client to the same response. *)
+Theorem c11_settled_carries_up : forall p ps, handshake hs_fuel dom p = HsOk ps ->
+  forall uid ack seq data r, Requests.cache_ok r = true -> uid < 65536 -> ack < 65536 -> seq < 65536 -> wf_bytes data ->
+  (length data <= hp_up_frag ps)%nat ->
+  upstream_through p dom (hp_up ps) (Requests.RPacket uid ack (Some (seq, data))) r
+  = Ok (Requests.RPacket (uid mod 1296) ack (Some (seq, data))).
+Proof. exact settled_carries_up. Qed.
+
+Theorem c11_settled_carries_down : forall p ps, handshake hs_fuel dom p = HsOk ps ->
+  forall qn r, qname_ok qn = true -> resp_wf r = true -> down_side p (hp_qt ps) (hp_down ps) qn r = true ->
+  downstream_through p dom (hp_qt ps) (hp_down ps) qn r = Ok (Responses.normalise r).
+Proof. exact settled_carries_down. Qed.
+
+(* Refuted (a finding, reproduced on the real code: c11 keep keep all 1500 2001): the size condition of (7) does not follow from
+   the negotiated fragment sizes when data flows both ways in one exchange.  Over a path that drops answers above 1500 octets the
+   handshake succeeds with fragments of 193 octets up and 1404 down; the packet response with a full downstream fragment gets
+   through in answer to a poll, but in answer to a request that carries a full upstream fragment it is dropped. *)
+Theorem c11_both_ways_refuted : exists ps,
+  handshake hs_fuel dom limited_path = HsOk ps /\ hp_down_frag ps = 1404 /\ hp_up_frag ps = 193%nat /\
+  let uid := pr_uid (hp_pre ps) in
+  let up_req := Requests.RPacket uid 0 (Some (0, full_up (hp_up_frag ps))) in
+  let down := RPkt ENone 0 (Some (0, full_down (hp_down_frag ps))) in
+  (exists r, upstream_through limited_path dom (hp_up ps) up_req Requests.cache0 = Ok r) /\
+  (exists qn r, request_name (hp_up ps) dom (Requests.RPacket uid 0 None) = Ok qn /\
+                downstream_through limited_path dom (hp_qt ps) (hp_down ps) qn down = Ok r) /\
+  (exists qn, request_name (hp_up ps) dom up_req = Ok qn /\
+              downstream_through limited_path dom (hp_qt ps) (hp_down ps) qn down = Err (wd "dropped"%string)).
+Proof. exact both_ways_refuted. Qed.
+
+(* ---------------------------------------------------------------------------------------------------------------- *)
+(* the two algorithms on their own *)
 
 (* Whatever the path does to the probes, the fragment-size probing ends: 16 rounds always suffice, more fuel changes nothing. *)
 Theorem c11_terminates : forall p, autodetect 16 p <> FOutOfFuel.
@@ -17,13 +141,19 @@ Theorem c11_fragment_sound : forall p f, autodetect 16 p = FOk f -> p (f + 2) = 
 Proof. exact frag_sound. Qed.
 Theorem c11_fragment_within_limit : forall t f, autodetect 16 (threshold_path t) = FOk f -> f + 2 <= t.
 Proof. exact frag_threshold. Qed.
+Theorem c11_fragment_not_below_first_proposal : forall p f, autodetect 16 p = FOk f -> 768 <= f + 2.
+Proof. exact frag_min. Qed.
+
+(* The search with its exchange counter (what Handshake runs) is that search. *)
+Theorem c11_counted_search_is_the_search : forall fuel p, fst (autodetect_both fuel p) = autodetect fuel p.
+Proof. exact autodetect_both_fst. Qed.
 
 (* The shape before the repair (search step only after a successful probe) never ends on a path whose first probe is dropped. *)
 Theorem c11_old_shape_nonterminating : forall fuel p, (p frag_first_proposal = PTimeout \/ p frag_first_proposal = PError) ->
   search_old fuel p frag_first_proposal (frag_range_top - frag_first_proposal) 0 = FOutOfFuel.
 Proof. exact frag_old_nonterm. Qed.
 
-(* The upstream codec it commits to is one whose whole alphabet the path leaves alone, or the Base32 fall-back, which survives
+(* The upstream codec the ladder commits to is one whose whole alphabet the path leaves alone, or the Base32 fall-back, which survives
    lower-casing and every treatment of 8-bit octets. *)
 Theorem c11_codec_sound : forall cp bp, In cp all_case -> In bp all_bits ->
   select_upstream cp bp = Base32 \/ survives cp bp (alphabet (select_upstream cp bp)) = true.
@@ -34,8 +164,130 @@ Proof. exact accepted_means_alphabet. Qed.
 Theorem c11_base32_robust : forall bp, In bp all_bits -> survives CKeep bp (alphabet Base32) = true /\ survives CLower bp (alphabet Base32) = true.
 Proof. exact base32_robust. Qed.
 
-Theorem c11_source_facts : frag_step_outside_retry_loop = true /\ frag_first_proposal = 768 /\ frag_range_top = 8192.
+(* ---------------------------------------------------------------------------------------------------------------- *)
+(* tie to the source: what the model takes from dns_client_connection.go, query_types.go, dns_server_connection.go today *)
+
+Definition names (l : list String.string) : list (list N) := map wd l.
+
+Theorem c11_source_facts :
+  frag_step_outside_retry_loop = true /\ frag_first_proposal = 768 /\ frag_range_top = 8192 /\
+  (* the stages of Handshake() in order, and those whose error it returns *)
+  Gen.Handshake.handshake_calls =
+    names ["AutoDetectQueryType"; "VersionHandshake"; "AutodetectEdns0Extension"; "AutodetectEncodingUpstream"; "SetEncodingUpstream";
+           "getUpstreamMtu"; "AutodetectEncodingDowntream"; "SetEncodingDownstream"; "AutodetectLazyMode"; "AutodetectFragmentSize";
+           "SwitchFragmentSize"; "getUpstreamMtu"]%string /\
+  Gen.Handshake.handshake_failing_calls =
+    names ["AutoDetectQueryType"; "VersionHandshake"; "SetEncodingUpstream"; "SetEncodingDownstream"; "AutodetectFragmentSize";
+           "SwitchFragmentSize"]%string /\
+  Gen.Handshake.set_up_fallback_never_fails = true /\ Gen.Handshake.set_down_fallback_never_fails = true /\
+  (* record types: priority, rounds, early exit, replacement rule, failure when none works, probe codecs *)
+  priority = all_rtypes /\ Gen.Handshake.qtype_rounds = 3 /\ Gen.Handshake.qtype_stop_at = rtype_code RNull /\
+  Gen.Handshake.qtype_replace_if_none_or_before = true /\ Gen.Handshake.qtype_none_is_failure = true /\
+  Gen.Handshake.qtype_probe_raw_types = [rtype_code RNull; rtype_code RPrivate] /\ Gen.Handshake.edns_probe_raw_types = [rtype_code RNull] /\
+  (* retry counts *)
+  Gen.Handshake.version_tries = 5 /\ Gen.Handshake.edns_tries = 3 /\ Gen.Handshake.up_test_tries = 3 /\ Gen.Handshake.set_up_tries = 5 /\
+  Gen.Handshake.down_test_tries = 3 /\ Gen.Handshake.set_down_tries = 5 /\ Gen.Handshake.lazy_tries = 5 /\ Gen.Handshake.frag_tries = 3 /\
+  Gen.Handshake.switch_tries = 5 /\
+  (* ladders and fall-backs *)
+  ladder_codecs = [Base128; Base91; Base85; Base64; Base64u] /\ down_codecs = [Base64; Base64u; Base85; Base91; Base128] /\
+  up_fallback = Base32 /\ set_up_fallback = Base32 /\ set_down_fallback = Base32 /\ down_initial = Base32 /\
+  Gen.Handshake.down_tolerated_failure = code Base64 /\ Gen.Handshake.down_raw_without_test = [rtype_code RNull; rtype_code RPrivate] /\
+  Gen.Handshake.down_raw_after = code Base128 /\ Gen.Handshake.down_raw_after_type = rtype_code RTxt /\
+  (* the acceptance tests: a codec is kept when its test passes; every probe compares the whole answer *)
+  Gen.Handshake.down_keeps_codec_when_test_passes = true /\ Gen.Handshake.down_raw_kept_when_test_passes = true /\
+  Gen.Handshake.qtype_probe_compares_all = true /\ Gen.Handshake.edns_probe_compares_all = true /\
+  Gen.Handshake.down_probe_compares_all = true /\ Gen.Handshake.up_probe_compares_all = true /\
+  Gen.Handshake.frag_probe_compares_all = true /\
+  Gen.Handshake.frag_pattern_step_client = 107 /\ Gen.Handshake.frag_pattern_step_server = 107 /\
+  Gen.Handshake.switch_fails_on_error = true /\ Gen.Handshake.switch_goes_on_after_server_error = true /\
+  Gen.Handshake.server_default_fragment = SA.Srv.Server.default_frag /\
+  download_codec_check = SA.Gen.Nego.download_codec_check /\ Responses.bad_errors = Gen.Commands.bad_errors.
 Proof. repeat split; reflexivity. Qed.
+
+(* ---------------------------------------------------------------------------------------------------------------- *)
+(* non-vacuity, by computation *)
 
 Example c11_nonvacuous : autodetect 16 (threshold_path 1500) = FOk 1491 /\ select_upstream CKeep BStrip = Base91.
 Proof. split; vm_compute; reflexivity. Qed.
+
+Definition summary (r : hs_result) : list N :=
+  match r with
+  | HsOk ps => [1; rtype_code (hp_qt ps); code (hp_up ps); code (hp_down ps); N.of_nat (hp_up_frag ps); hp_down_frag ps; N.of_nat (hp_exchanges ps)]
+  | HsFail s n => [0; N.of_nat n]
+  | HsOutOfFuel => []
+  end.
+Definition mkpath cp bp ts l tr : path := {| p_case := cp; p_bits := bp; p_types := ts; p_limit := l; p_trunc := tr |}.
+
+(* successes of every kind exist: a transparent path (NULL, Base128 up, Raw down); lower-cased names (Base32 up); a CNAME-only path
+   cut at 1500 octets (Base128 both ways, 998 octets down); failures too: upper-cased names, only A answered, a limit of 512 *)
+Example c11_handshake_examples :
+  summary (handshake hs_fuel dom (mkpath CKeep BKeep all_rtypes 0 false)) = [1; 10; 86; 82; 193; 8175; 22] /\
+  summary (handshake hs_fuel dom (mkpath CLower BKeep all_rtypes 0 false)) = [1; 10; 84; 82; 135; 8175; 18] /\
+  summary (handshake hs_fuel dom (mkpath CKeep BKeep [RCname] 1500 true)) = [1; 5; 86; 86; 193; 998; 48] /\
+  summary (handshake hs_fuel dom (mkpath CUpper BKeep all_rtypes 0 false)) = [0; 6] /\
+  summary (handshake hs_fuel dom (mkpath CKeep BKeep [RA] 0 false)) = [0; 24] /\
+  summary (handshake hs_fuel dom (mkpath CKeep BKeep all_rtypes 512 false)) = [0; 14].
+Proof. vm_compute. repeat split. Qed.
+
+(* the hypotheses of c11_settled_carries_down are satisfiable: a full downstream fragment in answer to a poll, on the CNAME-only
+   path cut at 1500 octets *)
+Example c11_carries_down_example :
+  match handshake hs_fuel dom (mkpath CKeep BKeep [RCname] 1500 true) with
+  | HsOk ps =>
+    match request_name (hp_up ps) dom (Requests.RPacket (pr_uid (hp_pre ps)) 0 None) with
+    | Ok qn => let r := RPkt ENone 7 (Some (9, full_down (hp_down_frag ps))) in
+               qname_ok qn && resp_wf r && down_side (mkpath CKeep BKeep [RCname] 1500 true) (hp_qt ps) (hp_down ps) qn r
+    | _ => false
+    end
+  | _ => false
+  end = true.
+Proof. vm_compute. reflexivity. Qed.
+
+(* more of the same: on each of these paths the packet response with a full negotiated downstream fragment, in answer to a poll, meets
+   the side conditions of c11_settled_carries_down (so it is decoded to the same response) *)
+Definition poll_fits (p : path) : bool :=
+  match handshake hs_fuel dom p with
+  | HsOk ps =>
+    match request_name (hp_up ps) dom (Requests.RPacket (pr_uid (hp_pre ps)) 0 None) with
+    | Ok qn => let r := RPkt ENone 7 (Some (9, full_down (hp_down_frag ps))) in
+               negb (hp_down_frag ps =? 0) && qname_ok qn && resp_wf r && down_side p (hp_qt ps) (hp_down ps) qn r
+    | _ => false
+    end
+  | _ => false
+  end.
+
+Example c11_poll_fits_examples : forallb poll_fits
+  [mkpath CKeep BKeep all_rtypes 0 false; mkpath CKeep BKeep all_rtypes 1024 false; mkpath CKeep BKeep all_rtypes 1500 true;
+   mkpath CLower BStrip [RPrivate] 4096 false; mkpath CKeep BDrop [RTxt] 1200 false; mkpath CKeep BKeep [RTxt] 2048 true;
+   mkpath CKeep BKeep [RSrv] 1500 false; mkpath CKeep BKeep [RSrv] 2048 true; mkpath CKeep BKeep [RMx] 1500 false; mkpath CKeep BKeep [RMx] 4096 true;
+   mkpath CKeep BKeep [RCname] 1500 false; mkpath CLower BKeep [RCname; RA] 3000 true] = true.
+Proof. vm_compute. reflexivity. Qed.
+
+Print Assumptions c11_handshake_terminates.
+Print Assumptions c11_handshake_bounded.
+Print Assumptions c11_success_or_reported_failure.
+Print Assumptions c11_no_type_answered_fails.
+Print Assumptions c11_no_probe_passes_fails.
+Print Assumptions c11_version_failure_fails.
+Print Assumptions c11_settled_type_answered.
+Print Assumptions c11_unlimited_probe.
+Print Assumptions c11_settled_up_survives.
+Print Assumptions c11_settled_down_survives.
+Print Assumptions c11_settled_agreed.
+Print Assumptions c11_settled_fragment.
+Print Assumptions c11_settled_fragment_delivered.
+Print Assumptions c11_settled_fragment_within_limit.
+Print Assumptions c11_settled_carries_up.
+Print Assumptions c11_settled_carries_down.
+Print Assumptions c11_both_ways_refuted.
+Print Assumptions c11_terminates.
+Print Assumptions c11_fuel_irrelevant.
+Print Assumptions c11_fragment_sound.
+Print Assumptions c11_fragment_within_limit.
+Print Assumptions c11_fragment_not_below_first_proposal.
+Print Assumptions c11_counted_search_is_the_search.
+Print Assumptions c11_old_shape_nonterminating.
+Print Assumptions c11_codec_sound.
+Print Assumptions c11_probe_patterns_cover_alphabet.
+Print Assumptions c11_base32_robust.
+Print Assumptions c11_source_facts.
